@@ -84,6 +84,11 @@ func (c *CoffCase) Judge(rs []Res, env *Env) Outcome {
 	}
 	// ---- C09
 	if len(f.Problems) > 0 {
+		for _, pr := range f.Problems {
+			if strings.Contains(pr, "long-name offset") || strings.Contains(pr, "long name at offset") {
+				return fail("long-name-unrecoverable", "a name longer than eight bytes cannot be recovered through the string table: "+pr)
+			}
+		}
 		o.Status, o.Note = Inconclusive, "object is not structurally valid (C08 reports it): "+f.Problems[0]
 		return o
 	}
